@@ -222,10 +222,19 @@ def check_subject_wiring(ctx: Ctx):
         ctx.undecided("R18.6.floor", f, f.node, "floor:R18.6", "no call of the evaluator observed in Panoptica_Aggregator.evaluate")
 
 
+def _run_rule(ctx, name, fn):
+    """a sub-rule that cannot be evaluated is recorded as undecided; the remaining rules still run"""
+    try:
+        return fn(ctx)
+    except (Undecided, AnchorMissing) as e:
+        ctx.undecided(name, None, None, f"{name}:analysis", f"{type(e).__name__}: {e}")
+        return 0
+
+
 def check(ctx: Ctx):
-    check_roundtrip(ctx)
-    check_dialect(ctx)
-    check_vocabulary(ctx)
+    _run_rule(ctx, "check_roundtrip", check_roundtrip)
+    _run_rule(ctx, "check_dialect", check_dialect)
+    _run_rule(ctx, "check_vocabulary", check_vocabulary)
     try:
         check_subject_wiring(ctx)
     except (Undecided, AnchorMissing) as e:
